@@ -143,6 +143,15 @@ def nested_interrupt_resume(case, msg, observed=None):
     return "/" in (case.get("node") or "") and "." in (case.get("key") or "") and "pauses at the same interrupt again" in (msg or "")
 
 
+def nested_cycle_entry_union(case, msg, observed=None):
+    """A cyclic graph with several entry points, nested: the enclosing graph lists the wrapper as ONE entry point whose parameters
+    are the union of the inner entry points' parameters, and supplying exactly those is rejected by the INNER run as ambiguous."""
+    if not isinstance(case, dict) or case.get("family") != "nested_two_entry_cycle" or "Ambiguous cycle entry" not in (msg or ""):
+        return False
+    inner, outer = case.get("inner_entrypoints") or {}, case.get("outer_entrypoints") or {}
+    return len(inner) >= 2 and len(outer) == 1 and set(next(iter(outer.values()))) == {p for ps in inner.values() for p in ps}
+
+
 def viz_shared_producer_in_container(case, msg, observed=None):
     """A drawing is unfaithful only because, of SEVERAL producers of one output name inside an expanded nested graph, just one
     is drawn feeding a consumer outside that graph (the renderer resolves 'the' internal producer of a container output):
@@ -232,7 +241,7 @@ def self_first_body_overrun(case, msg, observed=None):
     return case.get("stages", 0) >= 1 and case.get("limit", 99) <= case.get("stages", 0) and "extra executions before the gate's first decision" in (msg or "")
 
 
-MATCHERS = {f.__name__: f for f in (self_first_body_overrun, equal_value_signal, mermaid_id_clash, viz_shared_producer_in_container, nested_interrupt_resume, equal_but_distinct_default, stop_iteration_async, waiter_with_edge_default, ambiguous_cycle_entry, empty_map_silent, viz_renamed_boundary, interrupt_handler_wrapped, interrupt_with_edge_default, bound_output_name)}
+MATCHERS = {f.__name__: f for f in (nested_cycle_entry_union, self_first_body_overrun, equal_value_signal, mermaid_id_clash, viz_shared_producer_in_container, nested_interrupt_resume, equal_but_distinct_default, stop_iteration_async, waiter_with_edge_default, ambiguous_cycle_entry, empty_map_silent, viz_renamed_boundary, interrupt_handler_wrapped, interrupt_with_edge_default, bound_output_name)}
 
 
 def classify(ctx, case, msg, observed=None):
